@@ -51,4 +51,9 @@ META = {
         note="Trusted: Lean kernel; engine model tied by the import suite. Four genuine defects found by this suite were repaired in /repo (see known_findings.jsonl).",
         technique="Lean 4 theorems (image-level replace law, refusal frame lemmas) + differential import/export suite on the real DB",
     ),
+    "C11": dict(
+        text="Lean 4 proofs, for every well-formed lock table (any number of owners), that LiteFS's internal write lock, once granted, holds every lock of its rollback/WAL plan, excludes every other owner from those locks (none holds one, none can obtain one), is never granted while an older owner holds one, and that the checkpoint gate and the WAL-write guard behave as stated; the lock plan is regenerated from db.go (fact theorem) and the real lock table is compared with model and POSIX spec on protocol-following and random histories.",
+        note="Trusted: Lean kernel; fact extractor; lock-table model tied by correspondence; call-level atomicity of TryLocks.",
+        technique="Lean 4 exclusion theorems over generated RWMutex code + regenerated lock plan + differential lock-table suite",
+    ),
 }
